@@ -52,7 +52,13 @@ int vnaproperty_import_yaml_from_string(vnaproperty_t **rootptr,
     vyml.vyml_error_fn = error_fn;
     vyml.vyml_error_arg = error_arg;
 
-    yaml_parser_initialize(&parser);
+    if (!yaml_parser_initialize(&parser)) {
+	errno = ENOMEM;
+	_vnaproperty_yaml_error(&vyml, VNAERR_SYSTEM,
+		"yaml_parser_initialize: %s: %s",
+		vyml.vyml_filename, strerror(errno));
+	return -1;
+    }
     yaml_parser_set_input_string(&parser,
 	(const unsigned char *)input, strlen(input));
     if (!yaml_parser_load(&parser, &document)) {
